@@ -17,15 +17,18 @@
      strings, character literals and extended identifiers whose characters were not changed keep
      their values; an extended identifier whose case was changed is another symbol
                                                                              C13_case_untouched_values, C13_extended_case_sensitive
-   * re-layout: bounded exhaustive evaluation over a family of lexemes and gaps
-                                                                             C13_relayout_invariant_partial
+   * re-layout: two writings of the token list of a diagnostic-free text with any gaps of blanks, line
+     breaks and comments that keep the tokens apart lex to the same kinds and values (from the C12
+     render -> lex round trip)                                               C13_relayout_invariant, C13_relayout_invariant_sep
+     and a bounded exhaustive evaluation (with tabs)                         C13_relayout_invariant_partial
    NOT proved: that parser, semantic analysis and lints consult identifiers only through kinds, values
-   and symbol ids, and re-layout invariance of the tokenizer for all texts.  Both are what the
+   and symbol ids (and re-layout with tabs/CR/CRLF or of texts with lexical errors).  That is what the
    project-vs-transformed-project oracle of checks/c13.py explores on every run. *)
 From Coq Require Import List Arith NArith Bool.
 Import ListNotations.
 From RH Require Import Text.Contents Text.Reader Lex.LangLexer Lex.LexSpec Lex.CaseLayout Lex.CaseLayoutProofs
   Lex.CaseLayoutCorollaries Symtab.Symtab Symtab.SymtabProofs Symtab.SymtabCase.
+From RH Require Lex.Render Lex.RenderLex Lex.RenderFull Lex.CaseLayoutRelayout.
 Local Open Scope nat_scope.
 
 (* ------------------------------------------------------------------------------------------ *)
@@ -199,17 +202,47 @@ Qed.
 (* ------------------------------------------------------------------------------------------ *)
 (* re-layout                                                                                  *)
 (* ------------------------------------------------------------------------------------------ *)
-(* FULL STATEMENT (C13_relayout_invariant): for all lexemes l1..ln and gaps g0..gn, g0'..gn' that are
-   well-formed (`gap_ok`) and keep the lexemes apart (`sep_ok`: non-empty unless one neighbour is one of
-   ; ( ) , ; no `-` directly before a `--` comment; the two gaps after a tick unchanged),
-       same_kinds_values (lex_all (render g0 [(l1,g1);..;(ln,gn)])) (lex_all (render g0' [(l1,g1');..;(ln,gn')])).
-   PROVED: the statement for a finite family by evaluation (12 lexemes: identifier, keyword, :=, character
-   literal, string, exponent literal, based literal, bit string, extended identifier, -, ;, <= ; 8 gaps:
-   blank, line break, tab+blank, blank + line comment, block comment, two line breaks + blank, empty line
-   comment + tab, block comment holding `--` + blank): all 1728 triples with each gap used throughout and
-   all 144 pairs with every middle gap and 2 x 2 outer gaps, against single blanks; and that the statement
-   is false without `sep_ok`.  For arbitrary texts re-layout invariance is explored on the implementation by
-   the oracle of checks/c13.py (token kinds, values and symbol ids of every transformed file). *)
+(* C13_relayout_invariant (GENERAL, proved from the render -> lex round trip of the C12 development, files
+   Lex/Render*.v imported read-only): a writing of a token list is a list of pieces — blank, line break, `--`
+   comment, block comment, token text (Lex/Render.v `piece`, `pieces_text`).  If ts is the token list of a
+   diagnostic-free text and ps, ps' are two writings of exactly these tokens (`lex_toks`), with ANY gaps that
+   obey the separator discipline `pieces_ok` (behind each token text something its tokenizer arm stops at; a
+   `--` comment followed by a line break or the end; comment bodies without line break resp. `*/`, and not the
+   `vhdl_ls off` directive), then both writings lex without diagnostics to tokens with the kinds and values of
+   ts, in order; only comments and positions differ.  C13_relayout_invariant_sep is the same statement for two
+   separator assignments of the formatter's buffer model (`sep_ok`).
+   Outside the general theorem: tabs, CR/CRLF and other blank characters in gaps (pieces know ' ' and LF only),
+   inputs with lexical diagnostics, tool directives.  Those, and the implementation itself, are covered by the
+   lexer half of the oracle of checks/c13.py; the bounded `_partial` sweep below (which includes a tab) is kept. *)
+Theorem C13_relayout_invariant : forall s ts ps ps',
+  lex_all s = Done ts [] -> RenderLex.lex_toks ps = ts -> RenderLex.lex_toks ps' = ts ->
+  Render.pieces_ok None ps = true -> Render.pieces_ok None ps' = true ->
+  same_kinds_values (lex_all (Render.pieces_text ps)) (lex_all (Render.pieces_text ps'))
+  /\ exists ts1 ts2, lex_all (Render.pieces_text ps) = Done ts1 [] /\ lex_all (Render.pieces_text ps') = Done ts2 []
+                     /\ map kv ts1 = map kv ts /\ map kv ts2 = map kv ts.
+Proof. exact CaseLayoutRelayout.relayout_invariant. Qed.
+
+Theorem C13_relayout_invariant_sep : forall s ts s0 l text s0' l' text',
+  lex_all s = Done ts [] -> map fst l = ts -> map fst l' = ts ->
+  Render.render s0 l = Some text -> Render.render s0' l' = Some text' ->
+  Render.sep_ok_from s0 l = true -> Render.sep_ok_from s0' l' = true ->
+  same_kinds_values (lex_all text) (lex_all text').
+Proof. exact CaseLayoutRelayout.relayout_invariant_sep. Qed.
+
+(* the hypotheses are satisfiable: 16 tokens of every literal kind, written with single blanks and written one
+   token per line with a line comment and a block comment in front of every token *)
+Example C13_relayout_general_example : exists ts, lex_all RenderFull.full_src = Done ts [] /\ length ts = 16
+  /\ RenderLex.lex_toks (CaseLayoutRelayout.blanked ts) = ts /\ RenderLex.lex_toks (CaseLayoutRelayout.commented ts) = ts
+  /\ Render.pieces_ok None (CaseLayoutRelayout.blanked ts) = true /\ Render.pieces_ok None (CaseLayoutRelayout.commented ts) = true
+  /\ Render.pieces_text (CaseLayoutRelayout.blanked ts) <> Render.pieces_text (CaseLayoutRelayout.commented ts).
+Proof. exact CaseLayoutRelayout.relayout_example. Qed.
+
+(* BOUNDED form, kept: evaluation over a finite family written with the gap type of Lex/CaseLayout.v (12 lexemes:
+   identifier, keyword, :=, character literal, string, exponent literal, based literal, bit string, extended
+   identifier, -, ;, <= ; 8 gaps: blank, line break, tab+blank, blank + line comment, block comment, two line breaks +
+   blank, empty line comment + tab, block comment holding `--` + blank): all 1728 triples with each gap used
+   throughout and all 144 pairs with every middle gap and 2 x 2 outer gaps, against single blanks; and that the
+   statement is false without the separator discipline. *)
 Theorem C13_relayout_invariant_partial : relayout_sweep_b = true.
 Proof. exact relayout_sweep. Qed.
 
@@ -263,6 +296,9 @@ Print Assumptions C13_extended_case_sensitive.
 Print Assumptions C13_case_untouched_values.
 Print Assumptions C13_case_example.
 Print Assumptions C13_directive_comment_is_case_sensitive.
+Print Assumptions C13_relayout_invariant.
+Print Assumptions C13_relayout_invariant_sep.
+Print Assumptions C13_relayout_general_example.
 Print Assumptions C13_relayout_invariant_partial.
 Print Assumptions C13_relayout_needs_separator_discipline.
 Print Assumptions C13_relayout_example.
